@@ -7,7 +7,7 @@ from tools.framework import Case, Err
 from harness.midi_common import *
 
 ID = "C20"
-LEAN_MODULES = ["Mingus.Props.C20", "Mingus.Props.C20Chord", "Mingus.Props.C20Decode", "Mingus.Props.C20Track", "Mingus.Props.C20Comp", "Mingus.Props.C20Pinned", "Mingus.Tie.C20"]
+LEAN_MODULES = ["Mingus.Props.C20", "Mingus.Props.C20Chord", "Mingus.Props.C20Decode", "Mingus.Props.C20Track", "Mingus.Props.C20Comp", "Mingus.Props.C20Pinned", "Mingus.Props.C20Header", "Mingus.Tie.C20"]
 RULE = ("every registered tuning (76) x every string x notes 0..127 (quick: every 3rd) x maxfret {0,12,24}: find_frets and "
         "get_Note incl. out-of-range strings and frets; seeded random note sets (1-4 notes) per tuning x max_distance 1-6 against "
         "a brute-force specification of find_fingering; chord shorthands x roots on the guitar-family single-string tunings for "
@@ -430,6 +430,30 @@ def cases(tier, rng):
             return ["t", None, [tab_bar_payload(rng, opens_) for _ in range(rng.randint(1, 3))], tun]
         for layout in ([bass, None], [None, uke], [None, bass, None], [uke, bass], [bass, None, uke]):
             out.append(Case("tab.composition", [["mixed", "", "", "", "", [trk(t_) for t_ in layout]], rng.choice([80, 100, 120, 160])], tag="tab:composition-mixed"))
+    # page headers: centring at odd/even widths and text lengths, the description's word wrapping (a word longer than the
+    # line first, runs of blanks, tabs and newlines between words, many short words)  [C20Header.lean]
+    letters = "abcdefghijklmnopqrstuvwxyzABCDEFGHIJ"
+    def word(lo, hi):
+        return "".join(rng.choice(letters) for _ in range(rng.randint(lo, hi)))
+    for k in range(40 if tier == "quick" else 400):
+        w = rng.choice([60, 61, 80, 81, 100, 101, 121, 160])
+        nw = rng.choice([0, 1, 2, 5, 12, 30, 60])
+        ws = [word(1, 9) if rng.random() < 0.85 else word(w - 14, w + 5) for _ in range(nw)]
+        if k % 5 == 0 and ws:
+            ws[0] = word(w - 11, w - 8)          # the first word at the edge of what a line takes
+        desc = ""
+        for x in ws:
+            desc += x + rng.choice([" ", " ", " ", "  ", "\t", "\n", " \n "])
+        if k % 3 == 0:
+            desc = desc.rstrip()
+        ttl = " ".join(word(1, 8) for _ in range(rng.randint(1, 4)))
+        if k % 7 == 0:
+            ttl = word(w // 3, w // 2)           # spaced out, wider than the page
+        sub = rng.choice(["", word(1, 12), word(2, 7) + " " + word(1, 7) + "'s " + word(1, 3)])
+        au = rng.choice(["", word(1, 10), word(3, 8) + " " + word(3, 8)])
+        em = rng.choice(["", word(2, 6) + "@" + word(2, 6) + ".org"])
+        trs = [["t", None, [tab_bar_payload(rng, open_pitches(STD)) for _ in range(rng.randint(0, 2))]] for _ in range(rng.randint(1, 2))]
+        out.append(Case("tab.composition", [[ttl, sub, au, em, desc, trs], w], tag="tab:composition-header"))
     out.append(Case("tab.bar", [None, ["C", 4, 4, []], 40], tag="tab:bar"))
     out.append(Case("tab.track", [None, ["t", None, []], 80], tag="tab:track"))
     return out
@@ -627,6 +651,10 @@ def oracle(c, obs):
             return None
         if isinstance(obs, Err):
             return "playable music raised %s" % obs.name
+        if fn == "tab.composition":
+            why = check_header(obs, comp, w)
+            if why:
+                return why
         bw = bar_width(w)
         if any(not tab_room(None if tun == STD and fn == "tab.composition" else (a[0] if fn in ("tab.track", "tab.track_via") else None), b, bw) for tr in tracks for b in tr[2]):
             return None
@@ -653,6 +681,41 @@ def oracle(c, obs):
             want = sorted(tuple(sorted(npitch(x) for x in ns)) for s in sounding for ns in s)
             if flat != want:
                 return "the fret numbers read off the page give entries %s, written %s" % (flat[:10], want[:10])
+    return None
+
+def check_header(page, comp, width):
+    """the page header: every line centred (blanks only, sides differ by at most one, never cut), the description's words all
+    there, once and in order, right before the instrument list; the page opens with an empty line and the spaced-out title"""
+    title, subtitle, author, email, description = comp[:5]
+    k = next((i for i, ln in enumerate(page) if ln.strip(" ") == "Instruments"), None)
+    if k is None:
+        return "the page header has no 'Instruments' line"
+    hdr = page[:k]
+    if len(hdr) < 2 or hdr[0] != "" or hdr[1].strip(" ") != "  ".join(title.upper()).strip(" "):
+        return "the page does not open with an empty line and the spaced-out upper-case title: %r" % (hdr[:2],)
+    for ln in hdr:
+        core = ln.strip(" ")
+        if not core:
+            # "" between blocks; `width` blanks where the wrapping loop closed an empty line (first word longer than a line)
+            if ln != "" and ln != " " * width:
+                return "a blank header line is neither empty nor %d blanks: %r" % (width, ln)
+            continue
+        left = len(ln) - len(ln.lstrip(" ")); right = len(ln) - len(ln.rstrip(" "))
+        if len(ln) != max(width, len(core)) or abs(left - right) > 1:
+            return "header line not centred in %d columns: %r" % (width, ln)
+    dw = description.split()
+    if description != "":
+        if hdr[-2:] != ["", ""]:
+            return "the header block before the instrument list does not end with two empty lines"
+        body = hdr[:-2]; dl = []
+        while body and body[-1] != "":
+            dl.insert(0, body.pop())
+        got = [x for ln in dl for x in ln.split()]
+        if got != dw:
+            return "the description's words are not all in the header, once and in order: %s ... written %s ..." % (got[:8], dw[:8])
+        for ln in dl:
+            if len(ln.split()) >= 2 and len(" ".join(ln.split())) >= width - 10:
+                return "a wrapped description line of several words is %d characters, not shorter than width - 10 = %d" % (len(" ".join(ln.split())), width - 10)
     return None
 
 def bar_width(maxwidth):
